@@ -9,6 +9,8 @@
   Circle points range over the documented domain `ValidPt p : -π ≤ p ≤ π`; s1 intervals over `isValid`.
 -/
 import S2Proofs.IntervalLemmas
+import S2Proofs.CapLemmas
+import Mathlib.Algebra.Order.Group.Defs
 
 set_option linter.unusedSectionVars false
 set_option linter.unusedVariables false
@@ -376,17 +378,64 @@ theorem s1_fromEndpoints_valid (lo hi : α) (hl : ValidPt lo) (hh : ValidPt hi) 
   simp only [feq_eq, decide_eq_true_eq, Bool.and_eq_true, Bool.not_eq_true', decide_eq_false_iff_not]
   split_ifs <;> s1n <;> grind (splits := 40)
 
-/-- Expanded (any margin, any sign) returns a valid interval. -/
-theorem s1_expanded_valid [IvlArithLaws α] (i : S1 α) (hi : i.isValid = true) (m : α) :
-    (i.expanded m).isValid = true := by
+/-- the expansion before the final containment check is a valid interval -/
+theorem s1_expandedRaw_valid [IvlArithLaws α] (i : S1 α) (m : α) : (i.expandedRaw m).isValid = true := by
   have h1 := IvlLaws.negPi_lt_pi (α := α)
   have r1 := IvlArithLaws.rem_range (sub i.lo m)
   have r2 := IvlArithLaws.rem_range (add i.hi m)
-  unfold S1.expanded S1.expandedTail S1.fromEndpoints
+  unfold S1.expandedRaw S1.fromEndpoints
   simp only [feq_eq, decide_eq_true_eq, Bool.and_eq_true, Bool.not_eq_true', decide_eq_false_iff_not]
   generalize rem2pi (sub i.lo m) = a at *
   generalize rem2pi (add i.hi m) = b at *
   split_ifs <;> s1n <;> grind (splits := 40)
+
+/-- Expanded (any margin, any sign) returns a valid interval. -/
+theorem s1_expanded_valid [IvlArithLaws α] (i : S1 α) (hi : i.isValid = true) (m : α) :
+    (i.expanded m).isValid = true := by
+  have h1 := IvlLaws.negPi_lt_pi (α := α)
+  have hr := s1_expandedRaw_valid i m
+  have hf := (s1_empty_full (α := α) pi ⟨le_of_lt h1, le_refl _⟩).2.1
+  have he := (s1_empty_full (α := α) pi ⟨le_of_lt h1, le_refl _⟩).1
+  unfold S1.expanded S1.expandedTail
+  dsimp only
+  split_ifs <;> assumption
+
+/-- Expanded by a non-negative margin keeps every original point — for ANY rounding of the arithmetic
+    (only `-π ≤ Remainder(x, 2π) ≤ π` is used): the result is `i`, Full, or an interval that passed the
+    `ContainsInterval(i)` test of repair 636e942, whose soundness is `s1_containsInterval_sound`. -/
+theorem s1_expanded_contains [IvlArithLaws α] (i : S1 α) (hi : i.isValid = true) (m p : α)
+    (hm : (zero : α) ≤ m) (hp : ValidPt p) (h : i.contains p = true) : (i.expanded m).contains p = true := by
+  have hr := s1_expandedRaw_valid i m
+  have hf := (s1_empty_full p hp).2.2.2
+  unfold S1.expanded S1.expandedTail
+  dsimp only
+  simp only [hm, if_true, decide_true, Bool.true_and]
+  split_ifs with c1 c2 c3
+  · exact h
+  · exact hf
+  · exact hf
+  · simp only [Bool.not_eq_true', Bool.not_eq_false] at c3
+    exact s1_containsInterval_sound _ _ hr hi c3 p hp h
+
+/-- Length is negative exactly for the empty interval (after repair 9d93e9d; before it the non-empty interval
+    `[π, nextafter(-π,0)]` had length -1). -/
+theorem s1_length_neg_iff_isEmpty [IvlLengthLaws α] (i : S1 α) :
+    i.length < (zero : α) ↔ i.isEmpty = true := by
+  have l1 := IvlLengthLaws.sub_negPi_pi_neg (α := α)
+  have l2 := IvlLengthLaws.empty_len_not_pos (α := α)
+  have l3 := IvlLengthLaws.negOne_neg (α := α)
+  obtain ⟨lo, hi'⟩ := i
+  unfold S1.length
+  dsimp only
+  split_ifs with c1 c2 c3
+  · constructor
+    · intro hc; exact absurd c1 (not_le.2 hc)
+    · intro he; rw [s1_isEmpty_iff] at he; simp only at he; rw [he.1, he.2] at c1; exact absurd l1 (not_lt.2 c1)
+  · constructor
+    · intro hc; exact absurd c2 (not_lt.2 (le_of_lt hc))
+    · intro he; rw [s1_isEmpty_iff] at he; simp only at he; rw [he.1, he.2] at c2; exact absurd c2 l2
+  · simp [c3, l3]
+  · simp [c3]
 
 
 /-- the union is the empty interval only if both operands are -/
@@ -709,22 +758,15 @@ theorem ll_expanded_valid [IvlArithLaws α] (r : LLRect α) (hr : r.isValid = tr
       unfold R1.intersection LLRect.validLat
       split_ifs at hc1 ⊢ <;> simp only [← Bool.not_eq_true, r1_isEmpty_iff] at * <;> grind
 
-/-- FULL STATEMENT for the lat-lng `expanded` with non-negative margins: every point is kept. -/
-def ll_expanded_contains_statement (α : Type) [LinearOrder α] [IvlOps α] : Prop :=
-  ∀ (r : LLRect α) (m ll : LatLng α), r.isValid = true → (zero : α) ≤ m.lat → (zero : α) ≤ m.lng →
-    r.containsLatLng ll = true → (r.expanded m).containsLatLng ll = true
-
-/-- What is proved: the latitude part and the composition.  The longitude part (`s1.Expanded` keeps
-    every point) is float arithmetic (see `s1_expanded_contains_exact_partial`) and enters as the hypothesis `hlng`. -/
-theorem ll_expanded_contains_partial [IvlArithLaws α] (r : LLRect α) (hr : r.isValid = true) (m ll : LatLng α)
-    (hm : (zero : α) ≤ m.lat)
-    (hlng : ∀ p, ValidPt p → r.lng.contains p = true → (r.lng.expanded m.lng).contains p = true)
+/-- the lat-lng `expanded` with non-negative margins keeps every point (any rounding satisfying the laws). -/
+theorem ll_expanded_contains [IvlArithLaws α] (r : LLRect α) (hr : r.isValid = true) (m ll : LatLng α)
+    (hm : (zero : α) ≤ m.lat) (hm2 : (zero : α) ≤ m.lng)
     (h : r.containsLatLng ll = true) : (r.expanded m).containsLatLng ll = true := by
   have h1 := IvlLaws.negPi_lt_pi (α := α)
   have hv := s1_expanded_valid r.lng ((ll_valid_iff r).1 hr).2.2.2.2.1 m.lng
   simp only [ll_mem_iff, ll_valid_iff] at h hr
   have e1 := r1_expanded_contains r.lat m.lat ll.lat hm h.2.2.2.1
-  have e2 := hlng ll.lng h.2.2.1 h.2.2.2.2
+  have e2 := s1_expanded_contains r.lng hr.2.2.2.2.1 m.lng ll.lng hm2 h.2.2.1 h.2.2.2.2
   have n1 : (r.lat.expanded m.lat).isEmpty = false := by
     rw [← Bool.not_eq_true, r1_isEmpty_iff_no_points]; intro hc; have := hc ll.lat; simp [e1] at this
   have n2 : (r.lng.expanded m.lng).isEmpty = false := by
@@ -737,85 +779,27 @@ theorem ll_expanded_contains_partial [IvlArithLaws α] (r : LLRect α) (hr : r.i
   refine ⟨e1, ?_⟩
   rw [r1_contains_iff]; exact ⟨h.1, h.2.1⟩
 
+/-! ## The two former counterexamples of `s1_expanded_contains` (found by this check on the original code,
+repaired in /repo by 9d93e9d and 636e942) — on the bit-exact float64 model they are fine now. -/
 
-/-! ## s1.Expanded keeps every point — FALSE for the real (float64) code; true for exact arithmetic
-
-The full statement, over any carrier: -/
-def s1_expanded_contains_statement (α : Type) [LE α] [LT α] [DecidableLE α] [DecidableLT α] [Max α] [Min α]
-    [IvlOps α] : Prop :=
-  ∀ (i : S1 α) (m p : α), i.isValid = true → (zero : α) ≤ m → ((negPi : α) ≤ p ∧ p ≤ (pi : α)) →
-    i.contains p = true → (i.expanded m).contains p = true
-
-section F64Counterexamples
+section FormerCounterexamples
 open S2.IvlF64
 
-/-- FINDING 1 (insufficient rounding slack).  On the bit-exact float64 model the statement is false:
-    `i = [0.88691374347237795, 1.238264765075288]`, `margin = 2.9659171427883377` (≥ 0).
-    `Length + 2*margin + 2*dblEpsilon = 6.2831853071795853 < 2π` so the "full" guard does not fire, but both
-    computed endpoints `Remainder(lo-margin, 2π)` and `Remainder(hi+margin, 2π)` are the same float
-    -2.07900339931596, so the result is the SINGLETON [x, x] instead of an (almost) full interval; it does not
-    contain `i.Lo`.  (Same result from the Go code: harness op `s1`, replay in DELIVER.md.) -/
-theorem s1_expanded_contains_F64_false_rounding : ¬ s1_expanded_contains_statement F64 := by
-  intro h
-  have := h ⟨⟨0x3fec6198ee52c70a⟩, ⟨0x3ff3cfeeb6dc998a⟩⟩ ⟨0x4007ba32c4575f96⟩ ⟨0x3fec6198ee52c70a⟩
-    (by decide +kernel) (by decide +kernel) (by decide +kernel) (by decide +kernel)
-  revert this
+-- former finding 1: `[0.88691374347237795, 1.238264765075288].Expanded(2.9659171427883377)` was the singleton
+-- `[-2.07900339931596, -2.07900339931596]`; now the containment check turns it into Full.
+example : (⟨⟨0x3fec6198ee52c70a⟩, ⟨0x3ff3cfeeb6dc998a⟩⟩ : S1 F64).expanded ⟨0x4007ba32c4575f96⟩ = S1.full ∧
+    (⟨⟨0x3fec6198ee52c70a⟩, ⟨0x3ff3cfeeb6dc998a⟩⟩ : S1 F64).expandedRaw ⟨0x4007ba32c4575f96⟩
+      = ⟨⟨0xc000a1cc88c2add4⟩, ⟨0xc000a1cc88c2add4⟩⟩ := by decide +kernel
+
+-- former finding 2: `[π, nextafter(-π,0)]` is valid and non-empty; its Length was -1, now 0; Expanded(π) was
+-- `[0, 4.44e-16]`, now Full.
+example : (⟨⟨0x400921fb54442d18⟩, ⟨0xc00921fb54442d17⟩⟩ : S1 F64).isValid = true ∧
+    (⟨⟨0x400921fb54442d18⟩, ⟨0xc00921fb54442d17⟩⟩ : S1 F64).isEmpty = false ∧
+    (⟨⟨0x400921fb54442d18⟩, ⟨0xc00921fb54442d17⟩⟩ : S1 F64).length = F64.zero false ∧
+    (⟨⟨0x400921fb54442d18⟩, ⟨0xc00921fb54442d17⟩⟩ : S1 F64).expanded ⟨0x400921fb54442d18⟩ = S1.full := by
   decide +kernel
 
-/-- FINDING 2 (`Length` returns the "empty" marker -1 for a non-empty interval).
-    `i = [π, nextafter(-π, 0)]` is valid, inverted and non-empty (it contains π), but `hi - lo` rounds to `-2π`,
-    so `Length() = -1`; then `Expanded(π)` misses the "full" guard (-1 + 2π + 2ε < 2π) and returns
-    `[0, 4.44e-16]`, which does not contain π. -/
-theorem s1_expanded_contains_F64_false_length : ¬ s1_expanded_contains_statement F64 := by
-  intro h
-  have := h ⟨⟨0x400921fb54442d18⟩, ⟨0xc00921fb54442d17⟩⟩ ⟨0x400921fb54442d18⟩ ⟨0x400921fb54442d18⟩
-    (by decide +kernel) (by decide +kernel) (by decide +kernel) (by decide +kernel)
-  revert this
-  decide +kernel
-
-/-- the root of finding 2: a valid, non-empty interval whose `Length` is -1 -/
-theorem s1_length_negative_for_nonempty_F64 :
-    let i : S1 F64 := ⟨⟨0x400921fb54442d18⟩, ⟨0xc00921fb54442d17⟩⟩
-    i.isValid = true ∧ i.isEmpty = false ∧ i.contains ⟨0x400921fb54442d18⟩ = true ∧
-      i.length = (⟨0xbff0000000000000⟩ : F64) := by
-  decide +kernel
-
-end F64Counterexamples
-
-section ExactInt
-open S2.IvlInt
-
-/-- What does hold (`_partial`): with EXACT arithmetic (the `Int` instance: π = 4, 2π = 8, exact `+ - Remainder`,
-    dblEpsilon = 0) `Expanded` by a non-negative margin keeps every point, for all valid intervals
-    (empty, full, singleton, inverted, endpoints at ±π) and all points.  Missing: the float rounding analysis,
-    which is exactly where the real code fails (findings 1 and 2); the oracle evaluates this clause on the Go
-    output for every generated case (`s1-expanded-loses-point`). -/
-theorem s1_expanded_contains_exact_partial : s1_expanded_contains_statement Int := by
-  intro i m p hi hm hp h
-  obtain ⟨lo, hi'⟩ := i
-  have r1 := rem8_cases (lo - m)
-  have r2 := rem8_cases (hi' + m)
-  have r3 := rem8_range (lo - m)
-  have r4 := rem8_range (hi' + m)
-  have hm' : (0 : Int) ≤ m := hm
-  have hq := norm_range p hp
-  rw [s1_contains_iff] at h ⊢
-  generalize norm p = q at *
-  unfold S1.expanded
-  simp only [c_zero, hm', if_true]
-  split_ifs with c1 c2
-  · exact h
-  · simp only [s1_fc_iff, S1.full, c_pi, c_negPi] at *; omega
-  · unfold S1.length at c2
-    unfold S1.expandedTail S1.fromEndpoints
-    simp only [c_add, c_sub, c_dbl, c_rem, c_zero, c_twoPi, c_twoEps, c_negOne, c_pi, c_negPi, feq_eq] at *
-    generalize IvlInt.rem8 (lo - m) = a at *
-    generalize IvlInt.rem8 (hi' + m) = b at *
-    simp only [s1_valid_iff, s1_isEmpty_iff, c_pi, c_negPi] at hi c1
-    split_ifs at c2 ⊢ <;> simp only [s1_fc_iff, c_pi, c_negPi, Bool.and_eq_true, decide_eq_true_eq,
-      Bool.not_eq_true', decide_eq_false_iff_not] at * <;> omega
-
-end ExactInt
+end FormerCounterexamples
 
 /-! ## Non-vacuity: concrete instances of the hypotheses (carrier `Int`, π = 4) -/
 
@@ -852,5 +836,260 @@ example : (⟨⟨-1, 2⟩, ⟨3, -3⟩⟩ : LLRect Int).isValid = true ∧ (LLRe
     (⟨⟨-1, 2⟩, ⟨3, -3⟩⟩ : LLRect Int).containsLatLng ⟨3, 4⟩ = false := by decide
 
 end Examples
+
+
+end S2Proofs.C19
+
+/-! ## s2.Cap (model `S2.CapM`; `P` = points, `α` = chord-angle carrier)
+
+"p is a point of c" is the library's `ContainsPoint` (`dist c.center p ≤ c.radius`).  Theorems that use only
+`CapLaws` (facts true of the float code by construction) are full; theorems that need the numeric `ChordLaws`
+(triangle inequality / monotonicity of chord-angle `Add`, which floats satisfy only up to rounding) are `_partial`.
+`Cap.Union` uses trigonometry and is not modelled: it is judged by the oracle only (and fails, see DELIVER). -/
+
+namespace S2Proofs.C19
+open S2 S2.CapOps S2.CapPt S2Proofs
+
+section Caps
+variable {P α : Type} [LinearOrder α] [CapPt P] [CapOps P α] [CapLaws P α]
+
+private theorem cap_feq_eq (a b : α) : feq a b = decide (a = b) := by
+  rw [Bool.eq_iff_iff, CapLaws.feq_iff (P := P)]; simp
+
+/-- rewrite the Boolean cap functions into order facts -/
+macro "capn" : tactic => `(tactic| simp only [CapM.containsPoint, CapM.interiorContainsPoint, CapM.isEmpty, CapM.isFull,
+  CapM.isValid, CapM.empty, CapM.full, CapM.contains, CapM.intersects, cap_feq_eq (P := P),
+  Bool.or_eq_true, Bool.and_eq_true, decide_eq_true_eq, ← Bool.not_eq_true, ne_eq] at *)
+
+/-- empty and full caps are valid; the empty cap has no point, the full cap has every point -/
+theorem cap_empty_full (p : P) :
+    (CapM.empty : CapM P α).isValid = true ∧ (CapM.full : CapM P α).isValid = true ∧
+    (CapM.empty : CapM P α).containsPoint p = false ∧ (CapM.full : CapM P α).containsPoint p = true := by
+  have h1 := CapLaws.negOne_lt_zero (P := P) (α := α)
+  have h2 := CapLaws.zero_lt_four (P := P) (α := α)
+  have h3 := CapLaws.dist_nonneg (α := α) (centerPoint : P) p
+  have h4 := CapLaws.dist_le_four (α := α) (centerPoint : P) p
+  have h5 := CapLaws.center_unit (P := P) (α := α)
+  capn; grind
+
+/-- IsEmpty says exactly "no point" -/
+theorem cap_isEmpty_iff_no_points (c : CapM P α) : c.isEmpty = true ↔ ∀ p, c.containsPoint p = false := by
+  constructor
+  · intro h p
+    have h3 := CapLaws.dist_nonneg (α := α) c.center p
+    capn; grind
+  · intro h
+    have e := h c.center
+    have h3 := CapLaws.dist_self (α := α) c.center
+    capn; grind
+
+/-- IsFull implies every point is contained (valid caps: `radius = 4`) -/
+theorem cap_isFull_all_points (c : CapM P α) (h : c.isFull = true) (p : P) : c.containsPoint p = true := by
+  have h4 := CapLaws.dist_le_four (α := α) c.center p
+  capn; grind
+
+/-- InteriorContainsPoint implies ContainsPoint -/
+theorem cap_interiorContainsPoint_containsPoint (c : CapM P α) (p : P) (h : c.interiorContainsPoint p = true) :
+    c.containsPoint p = true := by
+  have h4 := CapLaws.dist_le_four (α := α) c.center p
+  capn; grind
+
+/-- AddPoint: the result contains the new point and every old point, and is valid (valid cap, unit point). -/
+theorem cap_addPoint_contains (c : CapM P α) (p q : P) :
+    (c.addPoint p).containsPoint p = true ∧ (c.containsPoint q = true → (c.addPoint p).containsPoint q = true) ∧
+    (c.isValid = true → isUnit p = true → (c.addPoint p).isValid = true) := by
+  have h1 := CapLaws.dist_self (α := α) p
+  have h2 := CapLaws.dist_nonneg (α := α) c.center q
+  have h3 := CapLaws.dist_le_four (α := α) c.center p
+  have h4 := CapLaws.zero_lt_four (P := P) (α := α)
+  unfold CapM.addPoint
+  dsimp only
+  split_ifs <;> capn <;> grind
+
+/-- Complement is valid; the complement of empty is full and of full is empty. -/
+theorem cap_complement_valid (c : CapM P α) (hv : c.isValid = true) :
+    c.complement.isValid = true ∧ (c.isEmpty = true → c.isFull = false → c.complement = CapM.full) ∧
+    (c.isFull = true → c.complement = CapM.empty) := by
+  have e := cap_empty_full (P := P) (α := α) c.center
+  have h1 := CapLaws.neg_unit (α := α) c.center
+  have h2 := fun h => CapLaws.csub_four_le (P := P) c.radius h
+  unfold CapM.complement
+  split_ifs with c1 c2
+  · simp [e.1, c1]
+  · simp [e.2.1, c1, c2]
+  · refine ⟨?_, by simp [c2], by simp [c1]⟩
+    capn; grind
+
+/-- Expanded (by `dc = ChordAngleFromAngle(distance)`) is valid. -/
+theorem cap_expanded_valid (c : CapM P α) (hv : c.isValid = true) (dc : α) : (c.expanded dc).isValid = true := by
+  have e := cap_empty_full (P := P) (α := α) c.center
+  have h := CapLaws.cadd_le_four (P := P) c.radius dc
+  unfold CapM.expanded
+  split_ifs
+  · exact e.1
+  · capn; grind
+
+variable [ChordLaws P α]
+
+/-- Contains(Cap) is sound w.r.t. point membership — GIVEN the exact chord-angle laws (`ChordLaws`).
+    Missing for the float code: the rounding analysis of `Add` and of the chord computation (the oracle checks
+    the clause up to an explicit rounding allowance). -/
+theorem cap_contains_sound_partial (c o : CapM P α) (h : c.contains o = true) (p : P)
+    (hp : o.containsPoint p = true) : c.containsPoint p = true := by
+  have t := ChordLaws.tri (α := α) c.center o.center p
+  have m := ChordLaws.cadd_mono_right (P := P) (dist c.center o.center : α) (dist o.center p) o.radius
+  have h3 := CapLaws.dist_nonneg (α := α) o.center p
+  have h4 := CapLaws.dist_le_four (α := α) c.center p
+  unfold CapM.contains at h
+  split_ifs at h <;> capn <;> grind
+
+/-- A common point forces Intersects — GIVEN `ChordLaws` (same caveat). -/
+theorem cap_intersects_of_common_point_partial (c o : CapM P α) (p : P)
+    (h1 : c.containsPoint p = true) (h2 : o.containsPoint p = true) : c.intersects o = true := by
+  have t := ChordLaws.tri (α := α) c.center p o.center
+  have cm := ChordLaws.dist_comm (α := α) o.center p
+  have m1 := ChordLaws.cadd_mono_right (P := P) (dist c.center p : α) (dist p o.center) o.radius
+  have m2 := ChordLaws.cadd_mono_left (P := P) (dist c.center p : α) c.radius o.radius
+  have h3 := CapLaws.dist_nonneg (α := α) c.center p
+  have h4 := CapLaws.dist_nonneg (α := α) o.center p
+  unfold CapM.intersects
+  split_ifs <;> capn <;> grind
+
+/-- Expanded by a non-negative chord angle keeps every point — GIVEN `a ≤ Add a b` for `b ≥ 0`. -/
+theorem cap_expanded_contains_partial (c : CapM P α) (hv : c.isValid = true) (dc : α) (hd : (zero : α) ≤ dc) (p : P)
+    (h : c.containsPoint p = true) : (c.expanded dc).containsPoint p = true := by
+  have l := ChordLaws.le_cadd (P := P) c.radius dc
+  have h3 := CapLaws.dist_nonneg (α := α) c.center p
+  unfold CapM.expanded
+  split_ifs <;> capn <;> grind
+
+/-- AddCap contains every point of both operands — GIVEN `ChordLaws` (exact chord geometry; the float code
+    relies on the rounding allowance `addCapSlack`, derived in s2/cap.go and searched adversarially). -/
+theorem cap_addCap_contains_partial (c o : CapM P α) (ho : o.isValid = true) (p : P)
+    (h : c.containsPoint p = true ∨ o.containsPoint p = true) : (c.addCap o).containsPoint p = true := by
+  have t := ChordLaws.tri (α := α) c.center o.center p
+  have m := ChordLaws.cadd_mono_right (P := P) (dist c.center o.center : α) (dist o.center p) o.radius
+  have h3 := CapLaws.dist_nonneg (α := α) o.center p
+  have h5 := CapLaws.dist_nonneg (α := α) c.center p
+  have h6 := CapLaws.dist_nonneg (α := α) c.center o.center
+  have l := ChordLaws.le_cexp (P := P) (cadd (dist c.center o.center : α) o.radius) (dist c.center o.center) o.radius
+  have l2 := ChordLaws.le_cadd (P := P) (dist c.center o.center : α) o.radius (CapLaws.dist_le_four _ _)
+  have l4 := CapLaws.cadd_le_four (P := P) (dist c.center o.center : α) o.radius (CapLaws.dist_le_four _ _)
+  unfold CapM.addCap
+  dsimp only
+  split_ifs <;> capn <;> grind
+
+/-- AddCap keeps validity (valid operands). -/
+theorem cap_addCap_valid (c o : CapM P α) (hc : c.isValid = true) (ho : o.isValid = true) :
+    (c.addCap o).isValid = true := by
+  have h6 := CapLaws.dist_nonneg (α := α) c.center o.center
+  have l4 := CapLaws.cadd_le_four (P := P) (dist c.center o.center : α) o.radius (CapLaws.dist_le_four _ _)
+  have l2 := ChordLaws.le_cadd (P := P) (dist c.center o.center : α) o.radius (CapLaws.dist_le_four _ _)
+  have l5 := CapLaws.cexp_le_four (P := P) (cadd (dist c.center o.center : α) o.radius)
+    (addCapSlack (dist c.center o.center : α) o.radius (cadd (dist c.center o.center : α) o.radius))
+  unfold CapM.addCap
+  dsimp only
+  split_ifs <;> capn <;> grind
+
+/-- Union (after the repair) contains every point of both operands — GIVEN `ChordLaws` — REGARDLESS of what the
+    trigonometric part computed: `containedByAngles` and the trig-built cap `t` are arbitrary. -/
+theorem cap_union_contains_partial (c o : CapM P α) (hc : c.isValid = true) (ho : o.isValid = true)
+    (containedByAngles : Bool) (t : CapM P α) (p : P)
+    (h : c.containsPoint p = true ∨ o.containsPoint p = true) :
+    (c.unionWith o containedByAngles t).containsPoint p = true := by
+  unfold CapM.unionWith
+  dsimp only
+  by_cases hlt : c.radius < o.radius
+  · simp only [hlt, if_true]
+    split_ifs with c1 c2 c3
+    · rcases (Bool.or_eq_true_iff.1 c1) with hf | he
+      · exact cap_isFull_all_points o hf p
+      · have := (cap_isEmpty_iff_no_points c).1 he p
+        rcases h with h | h
+        · rw [this] at h; exact absurd h (by simp)
+        · exact h
+    · exact cap_addCap_contains_partial o c hc p h.symm
+    · exact cap_addCap_contains_partial o c hc p h.symm
+    · apply cap_addCap_contains_partial _ c hc p
+      rcases h with h | h
+      · exact Or.inr h
+      · exact Or.inl (cap_addCap_contains_partial t o ho p (Or.inr h))
+  · simp only [hlt, if_false]
+    split_ifs with c1 c2 c3
+    · rcases (Bool.or_eq_true_iff.1 c1) with hf | he
+      · exact cap_isFull_all_points c hf p
+      · have := (cap_isEmpty_iff_no_points o).1 he p
+        rcases h with h | h
+        · exact h
+        · rw [this] at h; exact absurd h (by simp)
+    · exact cap_addCap_contains_partial c o ho p h
+    · exact cap_addCap_contains_partial c o ho p h
+    · apply cap_addCap_contains_partial _ o ho p
+      rcases h with h | h
+      · exact Or.inl (cap_addCap_contains_partial t c hc p (Or.inr h))
+      · exact Or.inr h
+
+end Caps
+
+/-- Complement ∪ original covers every point — GIVEN exact arithmetic: the carrier is an ordered additive group,
+    the chord identity `|c−p|² + |−c−p|² = 4` holds for the point, and `Sub 4 r = 4 − r`.
+    (For floats each of the three holds only up to rounding: points within a few ulps of the common boundary can
+    belong to neither cap; the oracle checks the clause up to the explicit allowance `tol`.) -/
+theorem cap_complement_covers_exact_partial {P α : Type} [LinearOrder α] [AddCommGroup α] [IsOrderedAddMonoid α]
+    [CapPt P] [CapOps P α] [CapLaws P α] (c : CapM P α) (p : P)
+    (hid : (dist c.center p : α) + dist (neg c.center) p = four)
+    (hsub : csub (four : α) c.radius = four - c.radius) :
+    c.containsPoint p = true ∨ c.complement.containsPoint p = true := by
+  have e := cap_empty_full (P := P) (α := α) p
+  by_cases hc : c.containsPoint p = true
+  · exact Or.inl hc
+  · right
+    unfold CapM.complement
+    split_ifs with c1 c2
+    · exact absurd (cap_isFull_all_points c c1 p) hc
+    · exact e.2.2.2
+    · simp only [CapM.containsPoint, decide_eq_true_eq, not_le] at hc ⊢
+      rw [hsub]
+      have : (dist (neg c.center) p : α) = four - dist c.center p := by
+        rw [← hid]; exact (add_sub_cancel_left _ _).symm
+      rw [this]
+      exact sub_le_sub_left (le_of_lt hc) _
+
+/-! ### Non-vacuity for the cap theorems: the 0-sphere instance (`P = Bool`, `α = Int`) satisfies `CapLaws` and
+`ChordLaws` (instances in `S2Proofs.CapLemmas`); concrete caps meeting the hypotheses: -/
+section CapExamples
+open S2Proofs.S0
+
+example : (⟨true, 0⟩ : CapM Bool Int).isValid = true ∧ (⟨true, 0⟩ : CapM Bool Int).containsPoint true = true ∧
+    (⟨true, 0⟩ : CapM Bool Int).containsPoint false = false ∧
+    ((⟨true, 0⟩ : CapM Bool Int).complement) = ⟨false, 4⟩ ∧
+    (⟨true, 0⟩ : CapM Bool Int).contains ⟨true, 0⟩ = true ∧ (⟨true, 0⟩ : CapM Bool Int).intersects ⟨false, 0⟩ = false ∧
+    ((⟨true, 0⟩ : CapM Bool Int).addCap ⟨false, 0⟩) = ⟨true, 4⟩ ∧
+    ((⟨true, 0⟩ : CapM Bool Int).addPoint false) = ⟨true, 4⟩ := by decide
+-- hypotheses `hid`, `hsub` of `cap_complement_covers_exact_partial`
+example : (dist true false : Int) + dist (neg true) false = four ∧ csub (four : Int) 1 = 4 - 1 := by decide
+-- a bit-exact float cap: valid, contains its centre, complement and expansion valid
+open S2.CapF64 in
+example : let c : Cap := ⟨⟨F64.one, Chord.f0, Chord.f0⟩, F64.one⟩
+    c.isValid = true ∧ c.containsPoint c.center = true ∧ c.complement.isValid = true ∧
+    c.complement.containsPoint c.center = false ∧ (c.expanded F64.one).isValid = true := by decide +kernel
+
+end CapExamples
+
+/-! ### The former `AddCap` counterexample (1 ulp short with the old slack `dblEpsilon·dist`) is fine with the repaired
+allowance; likewise the two-point-cap Union case when finished by two `AddCap`s. -/
+
+section CapF64
+open S2.CapF64
+
+example :
+    let a : Cap := ⟨⟨⟨0x3fef2fa8a5c00669⟩, ⟨0xbfcafca85f1c2009⟩, ⟨0x3fb3707c5d9a22e1⟩⟩, ⟨0x3ffd877431415986⟩⟩
+    let b : Cap := ⟨⟨⟨0xbfe00ea81fad87d0⟩, ⟨0xbfeaadad918518d5⟩, ⟨0x3fcd8274f2060848⟩⟩, ⟨0x39b4484bfeebc2a0⟩⟩
+    let p : V3 := ⟨⟨0xbfe00ea81fad87d6⟩, ⟨0xbfeaadad918518d2⟩, ⟨0x3fcd8274f2060860⟩⟩
+    a.isValid = true ∧ b.isValid = true ∧ Chord.isUnit p = true ∧
+      b.containsPoint p = true ∧ (a.addCap b).containsPoint p = true := by
+  decide +kernel
+
+end CapF64
 
 end S2Proofs.C19
